@@ -179,3 +179,17 @@ func C14Cases(p *spec.Program, cfgs []spec.Config, seed uint64, tier string, nSc
 	}
 	return cases
 }
+
+// MultiFile returns a copy of p whose request generates several files in one invocation.
+func MultiFile(p *spec.Program, n int) *spec.Program {
+	q := cloneProgram(p)
+	for i := 0; i < n; i++ {
+		a, b := fmt.Sprintf("Extra%dAlpha", i), fmt.Sprintf("Extra%dBeta", i)
+		q.MoreFiles = append(q.MoreFiles, spec.ExtraFile{File: fmt.Sprintf("more%d.proto", i), Messages: []spec.Message{
+			{Name: a, Fields: []spec.Field{{Name: "XStr", Num: 1, Kind: spec.KString}, {Name: "XNums", Num: 2, Kind: spec.KInt64, Card: spec.CardList}}},
+			{Name: b, Fields: []spec.Field{{Name: "YFlag", Num: 1, Kind: spec.KBool}, {Name: "YMap", Num: 2, Kind: spec.KString, Card: spec.CardMap}}},
+		}})
+		q.Config.Types = append(q.Config.Types, a, b)
+	}
+	return q
+}
